@@ -363,6 +363,9 @@ def run_call(case, ctx):
             with monitor.suspended():
                 c = netgen.build(host)
             ctx.count('host:' + case['mode'])
+            _uc = random.Random(repr(case.get('rseed')) + 'under_construction')
+            if _uc.random() < 0.3:
+                A.under_construction(c, _uc, ctx)
             ops = case['operands']
             if case.get('live') and len(ops) == 1 and f in ('add_plus_one', 'add_sqrt', 'add_sub2', 'add_sub3', 'add_equal'):
                 # the caller passes what an accessor returned: the host's own live output list
